@@ -217,6 +217,14 @@ Vote(c) ==
   /\ res' = [call |-> "vote", out |-> "ok", oids |-> txn.resolved]
   /\ UNCHANGED <<hist, lastTs, clock, maxOid, issued, begun, ltid, packed, obs>>
 
+\* a low-level write of the vote fails (disk full, I/O error): tpc_vote raises, nothing is committed, the
+\* caller aborts
+VoteFail(c) ==
+  /\ IsFile /\ Active(c)
+  /\ txn' = Fail
+  /\ res' = Out("vote", "OSError")
+  /\ UNCHANGED <<hist, lastTs, clock, maxOid, issued, begun, ltid, packed, obs>>
+
 Finish(c) ==
   /\ InTxn(c) /\ txn.phase = "voted"
   /\ hist' = Append(hist, [tid |-> txn.tid, status |-> " ", meta |-> txn.meta, recs |-> txn.staged])
@@ -335,6 +343,16 @@ NextAbort ==
   \/ \E c \in Client : AbortFailed(c)
   \/ \E c \in Client : AbortVoted(c)
   \/ \E c \in Client : AbortStaged(c)
+  \/ CloseReopenQ
+\* fault heavy: votes fail, then abort, then further commits
+NextFault ==
+  \/ \E c \in Client, m \in Metas, clk \in 1..MaxClock : Begin(c, m, clk)
+  \/ \E c \in Client, o \in Oids, s \in SerialRange, d \in Datums : Store(c, o, s, d)
+  \/ \E c \in Client, t \in SerialRange : Undo(c, t)
+  \/ \E c \in Client : Vote(c)
+  \/ \E c \in Client : VoteFail(c)
+  \/ \E c \in Client : Finish(c)
+  \/ \E c \in Client : AbortFailed(c)
   \/ CloseReopenQ
 \* resolution heavy: stores with stale serials and undo of changed objects
 StaleStore(c, o, s, d) == CurTid(hist, o) # 0 /\ Store(c, o, s, d)
